@@ -1,9 +1,38 @@
 import Copia.Lemmas.GenEq
-/-! C19 — `plan.rs::needs_transfer` as translated from the source on this run is the model's quick check. -/
+import Copia.Lemmas.GenEqLoops
+import Copia.Lemmas.GenEqLoops2
+/-!
+# C19 — the planner and its matcher in the SOURCE are the model (translated on every run)
+
+`Copia.Gen.needsTransfer` comes from `tools/rs2lean.py`; `Copia.Gen.Loops.buildPlan`, `isExcluded`,
+`globMatch` from `tools/rs2lean_do.py` (`Copia/Gen/LoopsPlan.lean`): `plan.rs` statement by statement,
+loops included. These theorems make `glob_iff`, `plan_*`, `excluded_iff` (C15) and the one-way
+theorems built on the plan statements about that text.
+-/
 namespace Copia.C19
 
 theorem source_needs_transfer_is_model (src : Copia.Plan.FileMeta) (dst : Option Copia.Plan.FileMeta) :
     Copia.Gen.needsTransfer src dst = Copia.Plan.needsTransfer src dst :=
   Copia.GenEq.needsTransfer_eq src dst
+
+/-- `plan.rs::build_plan` (both loops, the `continue`, the two sorts) = the model's `buildPlan` -/
+theorem source_build_plan_is_model {K : Type} [DecidableEq K] (le : K → K → Bool) (excl : K → Bool)
+    (src dst : List (K × Copia.Plan.FileMeta)) (withDelete : Bool) :
+    Copia.Gen.Loops.buildPlan le excl src dst withDelete = Copia.Plan.buildPlan le excl src dst withDelete :=
+  Copia.GenEqLoops.buildPlan_eq le excl src dst withDelete
+
+/-- `plan.rs::is_excluded` (trailing-slash trim, empty pattern skipped, whole-path vs per-component
+matching, early `return true`) = the model's `isExcluded` -/
+theorem source_is_excluded_is_model (rel : List Char) (excludes : List (List Char)) :
+    Copia.Gen.Loops.isExcluded Copia.Plan.globMatch rel excludes = Copia.Plan.isExcluded rel excludes :=
+  Copia.GenEqLoops.isExcluded_eq rel excludes
+
+/-- `plan.rs::glob_match` — the index loop with `star` / `mark` backtracking and the trailing-star
+loop — run for at most the model's fuel per `while` FINISHES (`some`, not `none`) and answers what
+the model's matcher answers. With `glob_iff`: the source's matcher terminates and decides exactly
+the wildcard semantics, for every pattern and text. -/
+theorem source_glob_match_is_model (p t : List Char) :
+    Copia.Gen.Loops.globMatch ((t.length + 2) * (p.length + t.length + 2)) p t = some (Copia.Plan.globMatch p t) :=
+  Copia.GenEqLoops.globMatch_eq p t
 
 end Copia.C19
